@@ -60,16 +60,16 @@ impl ScriptStack for Vec<Vec<u8>> {
 //@stub ScriptStack for Vec<Vec<u8>>::pop_number
 }
 impl Script {
-    #[verifier::external_body] pub fn to_script_bits(&self) -> (r: Vec<ScriptBit>) ensures r@ == self.0@ { unimplemented!() }
-    #[verifier::external_body] pub fn from_script_bits(bits: Vec<ScriptBit>) -> (r: Script) ensures r.0@ == bits@ { unimplemented!() }
+//@fn Script::to_script_bits
+//@fn Script::from_script_bits
     #[verifier::external_body] pub fn to_asm_string(&self) -> (r: String) { unimplemented!() }
 //@stub Script::to_bytes
 //@stub Script::from_bytes
 }
 impl TxIn {
-    #[verifier::external_body] pub fn get_unlocking_script(&self) -> (r: Script) ensures r == self.unlocking_script { unimplemented!() }
-    #[verifier::external_body] pub fn get_locking_script(&self) -> (r: Option<Script>) ensures r == self.locking_script { unimplemented!() }
-    #[verifier::external_body] pub fn get_satoshis(&self) -> (r: Option<u64>) ensures r == self.satoshis { unimplemented!() }
+//@fn TxIn::get_unlocking_script
+//@fn TxIn::get_locking_script
+//@fn TxIn::get_satoshis
 //@fn TxIn::get_finalised_script_impl
 }
 impl PublicKey {
